@@ -1275,6 +1275,26 @@ func translateAll() string {
 	sb.WriteString("-- GENERATED by /verif/extract (translate.go) from the /repo working tree — do not edit; regenerated on every run.\n")
 	sb.WriteString("import DtailModel.Model.GoRT\nset_option linter.unusedVariables false\nopen Dtail.Go\n\n")
 	for _, u := range trUnits {
+		sb.WriteString(translateUnit(u))
+	}
+	return sb.String()
+}
+
+// translateUnit translates one package; a failure is confined to the unit: its section then holds a marker
+// instead of code, and the runner charges only the properties that depend on the unit
+func translateUnit(u trUnit) (out string) {
+	var sb strings.Builder
+	defer func() {
+		if r := recover(); r != nil {
+			if te, ok := r.(trErr); ok {
+				fmt.Fprintf(os.Stderr, "TRANSLATE-PROBLEM unit=%s: %s\n", u.ns, te.msg)
+				out = fmt.Sprintf("-- UNIT %s FAILED: %s\n\n", u.ns, strings.ReplaceAll(te.msg, "\n", " "))
+				return
+			}
+			panic(r)
+		}
+	}()
+	{
 		p := loadPkg(u)
 		for _, key := range u.funcs {
 			d, ok := p.funcs[key]
